@@ -320,7 +320,8 @@ def task_regnames(route, maxlen, first):
     words = [""] if first < 0 else (ALPHA[first] + "".join(t) for n in range(0, maxlen) for t in itertools.product(ALPHA, repeat=n))
     last = None
     for w in words:
-        for text in ((w, w + ".com") if w else ("",)):
+        # the word alone, with a lower-case and an upper-case ASCII label after it and an upper-case ASCII label in front
+        for text in ((w, w + ".com", w + ".COM", "WWW." + w) if w else ("",)):
             r = case_host(acc, route, text)
             if r is not None:
                 states.add(r)
